@@ -44,11 +44,15 @@ pub struct GenGeom {
     /// FAT32, non-zero: the root directory starts in the k-th cluster from the end (1 = the very last cluster)
     #[serde(default)]
     pub root_from_end: u8,
+    /// FAT32: reserved bits 4..6 and 8..15 of the extended flags (what a reader has to ignore): low three bits of this
+    /// value go to bits 4..6, the rest to bits 8..15
+    #[serde(default)]
+    pub ext_reserved: u16,
 }
 
 impl Default for GenGeom {
     fn default() -> Self {
-        GenGeom { rsvd: 1, mirror_off: None, root_cluster: 2, high_nibbles: false, fsinfo: 1, bkboot: 6, eoc: 7, media: 0xF8, pad_garbage: false, label: false, stray_active: 0, fat1: 0, fatsz: 0, ext_sig: 0, root_from_end: 0 }
+        GenGeom { rsvd: 1, mirror_off: None, root_cluster: 2, high_nibbles: false, fsinfo: 1, bkboot: 6, eoc: 7, media: 0xF8, pad_garbage: false, label: false, stray_active: 0, fat1: 0, fatsz: 0, ext_sig: 0, root_from_end: 0, ext_reserved: 0 }
     }
 }
 
@@ -156,6 +160,7 @@ pub fn mkfs(p: &MkfsParams) -> Result<Store, String> {
             Some(k) => 0x80 | (k as u16 & 0x0F),
             None => p.gg.stray_active as u16 & 0x0F,
         };
+        let ext = ext | ((p.gg.ext_reserved & 7) << 4) | ((p.gg.ext_reserved >> 3) << 8);
         put16(&mut b, 40, ext);
         put16(&mut b, 42, 0);
         put32(&mut b, 44, root_cluster);
